@@ -4,7 +4,7 @@ from . import common as C
 from . import gen_text as G
 from . import pipeline as PL
 
-PROP_MODS = ["Oq3.Props.C01", "Oq3.Props.C01Safe"]
+PROP_MODS = ["Oq3.Props.C01", "Oq3.Props.C01Safe", "Oq3.Props.C01Term"]
 
 
 def token_alphabet():
@@ -25,6 +25,7 @@ def gen_texts(ctx):
     q = ctx.tier == "quick"
     texts = [G.dec(l) for l in C.load_corpus("text")]
     texts += G.special_texts()
+    texts += G.nesting_texts()
     texts += G.escape_texts(rnd, 1500 if q else 20000)
     # token-count boundaries: truncated statements / programs padded to 63, 64, 65, 128 parser tokens
     ends = ["def f()", "def f() -", "a +", "a + ", "x = a", "for int i in", "gate g q", "U(1) q", "a <", "a >", "a &", "a |",
